@@ -114,6 +114,27 @@ InterpreterEnv::InterpreterEnv(std::vector<valtype>& stack_in, const CScript& sc
 
 bool CastToBool(const valtype& vch);
 
+// Put the session back to the most recent history entry and drop that entry
+static void RestoreLastSnapshot(InterpreterEnv& env)
+{
+    env.stack = env.stack_history.back();
+    env.altstack = env.altstack_history.back();
+    env.pc = env.pc_history.back();
+    env.nOpCount = env.nOpCount_history.back();
+    env.vfExec = env.vfExec_history.back();
+    env.pbegincodehash = env.pbegincodehash_history.back();
+    env.execdata = env.execdata_history.back();
+    env.opcode_pos = env.opcode_pos_history.back();
+    env.stack_history.pop_back();
+    env.altstack_history.pop_back();
+    env.pc_history.pop_back();
+    env.nOpCount_history.pop_back();
+    env.vfExec_history.pop_back();
+    env.pbegincodehash_history.pop_back();
+    env.execdata_history.pop_back();
+    env.opcode_pos_history.pop_back();
+}
+
 bool StepScript(InterpreterEnv& env)
 {
     // tapscript commitments go first
@@ -149,16 +170,18 @@ bool StepScript(InterpreterEnv& env)
         env.execdata_history.push_back(env.execdata);
         env.opcode_pos_history.push_back(env.opcode_pos);
 
-        if (!StepScript(env, pc)) {
-            // undo above pushes
-            env.stack_history.pop_back();
-            env.altstack_history.pop_back();
-            env.pc_history.pop_back();
-            env.nOpCount_history.pop_back();
-            env.vfExec_history.pop_back();
-            env.pbegincodehash_history.pop_back();
-            env.execdata_history.pop_back();
-            env.opcode_pos_history.pop_back();
+        bool ok;
+        try {
+            ok = StepScript(env, pc);
+        } catch (...) {
+            // a throwing operation must not leave a half-executed step behind
+            RestoreLastSnapshot(env);
+            throw;
+        }
+        if (!ok) {
+            // a failed operation leaves the session where it was: undo its
+            // partial effects (pc, stack, ...) together with the above pushes
+            RestoreLastSnapshot(env);
             return false;
         }
 
@@ -247,25 +270,8 @@ bool RewindScript(InterpreterEnv& env)
         printf("no stack history\n");
         return false;
     }
-    // Rewind from history
-    env.stack = env.stack_history.back();
-    env.altstack = env.altstack_history.back();
-    env.pc = env.pc_history.back();
+    RestoreLastSnapshot(env);
     env.curr_op_seq--;
-    env.nOpCount = env.nOpCount_history.back();
-    env.vfExec = env.vfExec_history.back();
-    env.pbegincodehash = env.pbegincodehash_history.back();
-    env.execdata = env.execdata_history.back();
-    env.opcode_pos = env.opcode_pos_history.back();
-    // Pop
-    env.stack_history.pop_back();
-    env.altstack_history.pop_back();
-    env.pc_history.pop_back();
-    env.nOpCount_history.pop_back();
-    env.vfExec_history.pop_back();
-    env.pbegincodehash_history.pop_back();
-    env.execdata_history.pop_back();
-    env.opcode_pos_history.pop_back();
     return true;
 }
 
